@@ -364,16 +364,16 @@ func (r *Repository) ReconcileLocalRSLWithRemote(ctx context.Context, remoteName
 	localUpdatedRefs := set.NewSet[string]()
 	for _, entry := range localOnlyEntries {
 		slog.Debug(fmt.Sprintf("Identified local only entry that must be reapplied '%s'", entry.GetID().String()))
-		if entry, isRefEntry := entry.(*rsl.ReferenceEntry); isRefEntry {
-			localUpdatedRefs.Add(entry.RefName)
+		if entry, updatesRef := entry.(rsl.ReferenceUpdaterEntry); updatesRef {
+			localUpdatedRefs.Add(entry.GetRefName())
 		}
 	}
 
 	remoteUpdatedRefs := set.NewSet[string]()
 	for _, entry := range remoteOnlyEntries {
 		slog.Debug(fmt.Sprintf("Identified remote only entry '%s'", entry.GetID().String()))
-		if entry, isRefEntry := entry.(*rsl.ReferenceEntry); isRefEntry {
-			remoteUpdatedRefs.Add(entry.RefName)
+		if entry, updatesRef := entry.(rsl.ReferenceUpdaterEntry); updatesRef {
+			remoteUpdatedRefs.Add(entry.GetRefName())
 		}
 	}
 
@@ -391,6 +391,10 @@ func (r *Repository) ReconcileLocalRSLWithRemote(ctx context.Context, remoteName
 
 	// Apply local only entries on top of the new local RSL
 	// localOnlyEntries is in reverse order
+	// newEntryIDs maps the ID of each local only entry to the ID of its
+	// reapplied counterpart so that annotations keep referring to (and
+	// skipping) the entries they were created for
+	newEntryIDs := map[string]githash.Hash{}
 	for i := len(localOnlyEntries) - 1; i >= 0; i-- {
 		slog.Debug(fmt.Sprintf("Reapplying entry '%s'...", localOnlyEntries[i].GetID().String()))
 
@@ -404,10 +408,27 @@ func (r *Repository) ReconcileLocalRSLWithRemote(ctx context.Context, remoteName
 				return fmt.Errorf("unable to reapply reference entry '%s': %w", entry.ID.String(), err)
 			}
 		case *rsl.AnnotationEntry:
-			if err := rsl.NewAnnotationEntry(entry.RSLEntryIDs, entry.Skip, entry.Message).Commit(r.r, sign); err != nil {
+			referencedEntryIDs := make([]githash.Hash, 0, len(entry.RSLEntryIDs))
+			for _, referencedEntryID := range entry.RSLEntryIDs {
+				if newEntryID, reapplied := newEntryIDs[referencedEntryID.String()]; reapplied {
+					referencedEntryID = newEntryID
+				}
+				referencedEntryIDs = append(referencedEntryIDs, referencedEntryID)
+			}
+			if err := rsl.NewAnnotationEntry(referencedEntryIDs, entry.Skip, entry.Message).Commit(r.r, sign); err != nil {
 				return fmt.Errorf("unable to reapply annotation entry '%s': %w", entry.ID.String(), err)
 			}
+		case *rsl.PropagationEntry:
+			if err := rsl.NewPropagationEntry(entry.RefName, entry.TargetID, entry.UpstreamRepository, entry.UpstreamEntryID).Commit(r.r, sign); err != nil {
+				return fmt.Errorf("unable to reapply propagation entry '%s': %w", entry.ID.String(), err)
+			}
 		}
+
+		newEntryID, err := r.r.GetReference(rsl.Ref)
+		if err != nil {
+			return fmt.Errorf("unable to get current tip of the RSL: %w", err)
+		}
+		newEntryIDs[localOnlyEntries[i].GetID().String()] = newEntryID
 
 		if slog.Default().Enabled(ctx, slog.LevelDebug) {
 			currentTip, err := r.r.GetReference(rsl.Ref)
